@@ -3,6 +3,7 @@ package rules
 import (
 	"fmt"
 	"go/ast"
+	"go/parser"
 	"go/token"
 	"go/types"
 	"sort"
@@ -53,7 +54,7 @@ func C08(r *core.Report) {
 		"R1 every dereference of an optional request pointer (jsonrpc2.Request.Params handed to the parse* functions, pointer-typed fields of old_faithful_grpc messages and of the parsed request structs, parameters that receive them) is dominated by a nil test, or the field is assigned on every path of its constructor; " +
 		"R2 no Must* helper is applied to a non-constant value; R3 every return of a handle* method either carries a non-nil *jsonrpc2.Error or is preceded on all paths by a Reply call; " +
 		"R4 a value returned together with an error is not used on a path that comes from the err != nil branch; R5 a pointer field of a locally built response is dereferenced only after being assigned on all paths; " +
-		"R6 no single-value type assertion / explicit panic on request-tainted values. Not decided: resource exhaustion, panics inside dependencies, crashes that need malformed archive data (C12)."
+		"R6 no single-value type assertion / explicit panic on request-tainted values. R2 also covers short aliases in dependencies that hand their parameter to a Must* helper (solana.MPK), found by parsing the dependency's source in the module cache. Not decided: resource exhaustion, panics inside dependencies, crashes that need malformed archive data (C12)."
 	r.Assumptions = []string{"gRPC never delivers a nil request message; optional scalar fields and nested messages may be nil", "generated proto getters (GetX) are nil-receiver safe",
 		"sourcegraph/jsonrpc2 leaves Request.Params nil when the member is absent"}
 	reach, fns := c08Scope(r)
@@ -493,7 +494,7 @@ func c08Must(r *core.Report, fns []*core.Func, reach map[*core.Func]*core.Func) 
 		info := f.Pkg.TypesInfo
 		var taint map[types.Object]bool
 		for _, cs := range r.Prog.Calls(f) {
-			if cs.Callee == nil || !strings.HasPrefix(cs.Callee.Name(), "Must") {
+			if cs.Callee == nil || !(strings.HasPrefix(cs.Callee.Name(), "Must") || depPanicsOnBadInput(r.Prog, cs.Callee)) {
 				continue
 			}
 			if taint == nil {
@@ -1022,4 +1023,74 @@ func ctorAlwaysSets(p *core.Prog, ctor *core.Func) []string {
 	}
 	sort.Strings(out)
 	return out
+}
+
+var depPanicCache = map[string]bool{}
+
+// depPanicsOnBadInput: fn is a function of a dependency (not of the repository) whose body, read from the module cache,
+// hands one of its own parameters to a Must* helper outside any nested function literal - a short alias such as solana.MPK =
+// MustPublicKeyFromBase58. The source file is only parsed, never executed.
+func depPanicsOnBadInput(p *core.Prog, fn *types.Func) bool {
+	if fn == nil || fn.Pkg() == nil || p.ByObj[fn.Origin()] != nil {
+		return false
+	}
+	key := fn.FullName()
+	if v, ok := depPanicCache[key]; ok {
+		return v
+	}
+	res := false
+	defer func() { depPanicCache[key] = res }()
+	posn := p.Fset.Position(fn.Pos())
+	if posn.Filename == "" || !strings.HasSuffix(posn.Filename, ".go") {
+		return false
+	}
+	fs := token.NewFileSet()
+	file, err := parser.ParseFile(fs, posn.Filename, nil, parser.SkipObjectResolution)
+	if err != nil {
+		return false
+	}
+	for _, d := range file.Decls {
+		fd, ok := d.(*ast.FuncDecl)
+		if !ok || fd.Body == nil || fd.Name.Name != fn.Name() || fs.Position(fd.Name.Pos()).Line != posn.Line {
+			continue
+		}
+		if len(fd.Body.List) > 6 {
+			return false // only short aliases / wrappers: a longer function validates before it panics, or not at all
+		}
+		ast.Inspect(fd.Body, func(m ast.Node) bool {
+			switch x := m.(type) {
+			case *ast.FuncLit:
+				return false
+			case *ast.CallExpr:
+				// an alias: the function's own parameter is handed to a Must* helper
+				passesParam := false
+				for _, a := range x.Args {
+					if id, ok := a.(*ast.Ident); ok && fd.Type.Params != nil {
+						for _, fl := range fd.Type.Params.List {
+							for _, nm := range fl.Names {
+								if nm.Name == id.Name {
+									passesParam = true
+								}
+							}
+						}
+					}
+				}
+				if !passesParam {
+					return true
+				}
+				switch f := x.Fun.(type) {
+				case *ast.Ident:
+					if strings.HasPrefix(f.Name, "Must") {
+						res = true
+					}
+				case *ast.SelectorExpr:
+					if strings.HasPrefix(f.Sel.Name, "Must") {
+						res = true
+					}
+				}
+			}
+			return true
+		})
+	}
+	return res
 }
